@@ -40,6 +40,9 @@ pub struct EncHistory {
     pub caps: Vec<usize>,
     pub fill: u8,
     pub align: usize,
+    /// capacities are used as given, also below the size that guarantees progress (C12: the
+    /// per-call invariants hold for ANY call; a history that stops making progress simply ends)
+    pub undersized_ok: bool,
 }
 
 pub fn is_sur(c: u32) -> bool {
@@ -48,7 +51,7 @@ pub fn is_sur(c: u32) -> bool {
 
 impl EncHistory {
     pub fn simple(enc: &'static Encoding, src: Src, repl: bool, text: &[u32]) -> EncHistory {
-        let mut h = EncHistory { enc, src, sink: ESink::Slice, repl, text: text.to_vec(), cuts: vec![], last_on_empty: false, caps: vec![], fill: 0xA5, align: 0 };
+        let mut h = EncHistory { enc, src, sink: ESink::Slice, repl, text: text.to_vec(), cuts: vec![], last_on_empty: false, caps: vec![], fill: 0xA5, align: 0, undersized_ok: false };
         h.normalize();
         h
     }
@@ -101,6 +104,7 @@ impl EncHistory {
             "caps": self.caps.iter().map(|c| match *c { CAP_QUERY => json!("query"), CAP_QUERY_EXACT => json!("query-exact"), CAP_AMPLE => json!("ample"), n => json!(n) }).collect::<Vec<_>>(),
             "fill": self.fill,
             "align": self.align,
+            "undersized_capacities_allowed": self.undersized_ok,
         })
     }
     pub fn from_json(v: &Value) -> Option<EncHistory> {
@@ -125,6 +129,7 @@ impl EncHistory {
                 .collect(),
             fill: v.get("fill")?.as_u64()? as u8,
             align: v.get("align")?.as_u64()? as usize,
+            undersized_ok: v.get("undersized_capacities_allowed").and_then(|x| x.as_bool()).unwrap_or(false),
         };
         h.normalize();
         Some(h)
@@ -398,7 +403,11 @@ impl EncDriver {
                     } else if c == CAP_AMPLE {
                         ample
                     } else {
-                        c.max(min_cap)
+                        if h.undersized_ok {
+                            c
+                        } else {
+                            c.max(min_cap)
+                        }
                     }
                 };
                 // destination
